@@ -44,8 +44,10 @@ ConstKinds == {"const", "kdef", "kuse"}
 \* mlprint: a @print whose expression holds a string literal that spans two physical lines (all line numbers of this
 \* module are indices of abstract lines; the harness maps them to the first physical line of each abstract line)
 \* esprint: a @print whose string literal holds ESCAPED line breaks (backslash n / r): one physical line
+\* bprint: a @print without an expression; sprint: a @print whose VALUE is a string with line breaks in it (or the empty
+\* string): whatever the text is, the directive is delivered once, with its own line
 StmtKinds == AttrKinds \cup {"union", "deprecated", "sealed", "extent", "assert", "print", "marker", "offq",
-                             "assertfalse", "undef", "mlprint", "kprint", "esprint"}
+                             "assertfalse", "undef", "mlprint", "kprint", "esprint", "bprint", "sprint"}
 HasStmt(l) == l.k \in StmtKinds
 IsEmptyLine(l) == l.k = "empty" /\ ~l.c        \* the only line on which visit_line flushes
 
@@ -107,7 +109,7 @@ Apply(s, l, i) ==
     [] l.k = "sealed" -> IF b.mode # "none" THEN Fail(s, i) ELSE SetCur(s, [b EXCEPT !.mode = "sealed"])
     [] l.k = "extent" -> IF b.mode # "none" THEN Fail(s, i) ELSE SetCur(s, [b EXCEPT !.mode = "extent"])
     [] l.k = "assert" -> s
-    [] l.k \in {"print", "mlprint", "esprint"} -> [s EXCEPT !.prints = Append(@, i)]
+    [] l.k \in {"print", "mlprint", "esprint", "bprint", "sprint"} -> [s EXCEPT !.prints = Append(@, i)]
     [] l.k = "marker" ->
          IF Len(s.structs) > 1 THEN Fail(s, i)
          ELSE [s EXCEPT !.hdr = TRUE, !.structs = Append(@, EmptyB)]
@@ -252,7 +254,7 @@ FlagsMirror ==
                  /\ out.parts[p].mode = "sealed" <=> \E j \in PartLines(lines, p) : lines[j].k = "sealed"
                  /\ out.parts[p].mode = "extent" <=> \E j \in PartLines(lines, p) : lines[j].k = "extent"
 PrintsMirror ==
-  out.ok => out.prints = SortedSeq({ j \in DOMAIN lines : lines[j].k \in {"print", "mlprint", "kprint", "esprint"} })
+  out.ok => out.prints = SortedSeq({ j \in DOMAIN lines : lines[j].k \in {"print", "mlprint", "kprint", "esprint", "bprint", "sprint"} })
 \* an identifier denotes the constant of that name defined in its own part of the definition (never the other part's)
 RefsMirror ==
   \A n \in DOMAIN out.refs :
@@ -277,7 +279,7 @@ ErrLineIsStatementLine ==
 \* prints delivered before a failure are exactly the @print lines before the failing line
 PrintsBeforeError ==
   ~out.ok /\ out.line # 0 /\ FirstSyntax(lines) = 0 =>
-     out.prints = SortedSeq({ j \in DOMAIN lines : lines[j].k \in {"print", "mlprint", "kprint", "esprint"} /\ j < out.line })
+     out.prints = SortedSeq({ j \in DOMAIN lines : lines[j].k \in {"print", "mlprint", "kprint", "esprint", "bprint", "sprint"} /\ j < out.line })
 
 \* step level: every attribute statement is committed exactly once, after its statement and before finalization
 CommitOncePerStatement ==
